@@ -3,7 +3,8 @@ CFG = {
     "cmd": "c04",
     "batches": lambda tier, seed: [("exhaustive", "-mode exhaustive -tier %s" % tier),
                                    ("shapes", "-mode shapes -tier %s" % tier),
-                                   ("random", "-mode random -tier %s" % tier)],
+                                   ("random", "-mode random -tier %s" % tier),
+                                   ("big", "-mode big -tier %s" % tier)],
     "signatures": {},
     "rule": "exhaustive: every history of exactly L steps (quick L=6, one heap: Insert key 1 / Insert key 2 with fresh values / Delete / DeleteAll; "
             "three keys without DeleteAll, L=5; binomial/Fibonacci two keys without DeleteAll, L=8; two mergeable heaps, L=4: the same on both (DeleteAll included) plus Merge in both directions; binary heap additionally with initial sizes 1..4) x 3 implementations "
@@ -11,6 +12,9 @@ CFG = {
             "shapes: binary heap fill-and-drain across every resize boundary for initial sizes 0..6, merges of heaps of sizes a,b (carry chains, three trees of one order) "
             "then drain, 2^k+1 inserts + Delete (one tree of degree k, k <= 9 quick / 12 thorough) with ascending/descending/equal/random keys, float64 maxDegree(n) against the exact definition, Merge histories (receiver plain / cleared-and-refilled / after a Delete / queried x argument never used / filled / cleared by DeleteAll / cleared-and-refilled / drained by Deletes / drained-and-cleared / queried / after one Delete / result of an earlier Merge, then possibly cleared or drained; argument keys better, worse or tying; full battery incl. ContainsValue of every value ever inserted on the receiver BEFORE any Delete, then Delete, battery, drain); random: pools of 1..8 heaps, up to 1200 (thorough 2000) steps, duplicate-heavy key ranges "
             "{1,2,3,5,16,64,1000}, ascending/descending/equal/saw-tooth shapes, Merge (argument cleared/drained/queried right before it, receiver queried right after it), DeleteAll, final drain. "
+            "big: heaps of 3200 and 6000 entries (permutation or duplicate-heavy keys, fill then drain) and hovering with interleaved insert/delete runs around the sizes "
+            "2207, 3571, 5778 (phi^16..phi^18, where maxDegree() steps 16->17->18->19), all three heaps, bulk operations of <= 250 inserts/deletes, judged by the extracted "
+            "bag-specification acceptor only (no exact model at this size). "
             "A case is non-trivial when the model saw a Delete on a heap of >= 3 entries, a Merge of two non-empty heaps or a resize of the binary heap's array; "
             "distinct = distinct (header, op list).",
     "assumptions": [
@@ -20,3 +24,20 @@ CFG = {
         "keys and values are Go ints; comparators: generic.NewCompareFunc / NewReverseCompareFunc (+-1) and a-b, b-a, 3(a-b), 3(b-a) (magnitudes, legal under the negative/zero/positive contract; no overflow for the key ranges used); the model is run with the same comparator value for value; the theorems hold for every comparator satisfying TotalOrder and every eqVal",
     ],
 }
+
+
+def main(run):
+    """std_check with a capped shrinker: a failing case with thousands of entries cannot be reduced below the
+    size at which the defect shows, and every replay of it costs about a second."""
+    import vlib
+    orig = vlib.shrink
+
+    def capped(trace_exe, model_exe, line, still_fails=None, budget=400, model_args=""):
+        big = line.split(" ", 1)[0].endswith("*") or line.count("|") > 3000
+        return orig(trace_exe, model_exe, line, still_fails=still_fails, budget=(40 if big else budget), model_args=model_args)
+
+    vlib.shrink = capped
+    try:
+        return vlib.std_check(run, CFG)
+    finally:
+        vlib.shrink = orig
